@@ -336,6 +336,10 @@ pub struct SimSettings {
     /// The device cannot report its current speed (`baud_rate()` is None), e.g. a termios port
     /// whose input and output speeds differ. The speed itself is still whatever `baud` says.
     pub baud_unreported: bool,
+    /// Framing values the device holds but cannot report (mark / space parity, 1.5 stop bits, 4-bit
+    /// bytes, a vendor flow-control mode): bit 0 character size, 1 parity, 2 stop bits, 3 flow control.
+    /// The getter returns `None`; the setter replaces the value and clears the bit.
+    pub unreported: u8,
 }
 
 /// Hashable mirror of `serial_core::BaudRate`.
@@ -349,7 +353,7 @@ pub const FLOWS: [FlowControl; 3] = [FlowControl::FlowNone, FlowControl::FlowSof
 
 impl SimSettings {
     pub fn is_19200_8n1_noflow(&self) -> bool {
-        self.baud.0 == 19200 && self.char_size == 3 && self.parity == 0 && self.stop_bits == 0 && self.flow == 0
+        self.baud.0 == 19200 && self.char_size == 3 && self.parity == 0 && self.stop_bits == 0 && self.flow == 0 && self.unreported == 0
     }
 }
 
@@ -358,16 +362,16 @@ impl SerialPortSettings for SimSettings {
         if self.baud_unreported { None } else { Some(BaudRate::from_speed(self.baud.0)) }
     }
     fn char_size(&self) -> Option<CharSize> {
-        Some(CHAR_SIZES[self.char_size as usize])
+        if self.unreported & 1 != 0 { None } else { Some(CHAR_SIZES[self.char_size as usize]) }
     }
     fn parity(&self) -> Option<Parity> {
-        Some(PARITIES[self.parity as usize])
+        if self.unreported & 2 != 0 { None } else { Some(PARITIES[self.parity as usize]) }
     }
     fn stop_bits(&self) -> Option<StopBits> {
-        Some(STOP_BITS[self.stop_bits as usize])
+        if self.unreported & 4 != 0 { None } else { Some(STOP_BITS[self.stop_bits as usize]) }
     }
     fn flow_control(&self) -> Option<FlowControl> {
-        Some(FLOWS[self.flow as usize])
+        if self.unreported & 8 != 0 { None } else { Some(FLOWS[self.flow as usize]) }
     }
     fn set_baud_rate(&mut self, baud_rate: BaudRate) -> serial_core::Result<()> {
         if self.fail_set_baud {
@@ -379,15 +383,19 @@ impl SerialPortSettings for SimSettings {
     }
     fn set_char_size(&mut self, char_size: CharSize) {
         self.char_size = CHAR_SIZES.iter().position(|c| *c == char_size).unwrap() as u8;
+        self.unreported &= !1;
     }
     fn set_parity(&mut self, parity: Parity) {
         self.parity = PARITIES.iter().position(|c| *c == parity).unwrap() as u8;
+        self.unreported &= !2;
     }
     fn set_stop_bits(&mut self, stop_bits: StopBits) {
         self.stop_bits = STOP_BITS.iter().position(|c| *c == stop_bits).unwrap() as u8;
+        self.unreported &= !4;
     }
     fn set_flow_control(&mut self, flow_control: FlowControl) {
         self.flow = FLOWS.iter().position(|c| *c == flow_control).unwrap() as u8;
+        self.unreported &= !8;
     }
 }
 
@@ -438,7 +446,7 @@ impl Device {
         }
     }
     pub fn default_odd() -> Self {
-        Device::new(SimSettings { baud: BaudRate2(110), char_size: 2, parity: 2, stop_bits: 1, flow: 1, fail_set_baud: false, fail_kind: 0, baud_unreported: false })
+        Device::new(SimSettings { baud: BaudRate2(110), char_size: 2, parity: 2, stop_bits: 1, flow: 1, fail_set_baud: false, fail_kind: 0, baud_unreported: false, unreported: 0 })
     }
 }
 
@@ -700,6 +708,17 @@ impl Wire for ScriptWire {
                 }
             } else {
                 let max = avail.min(buf.len());
+                if u128::from(self.sim_read_latency_ns) > timeout.as_nanos() {
+                    // the far end needs longer for a byte than the port is willing to wait (a read
+                    // timeout shorter than the line's latency: nothing arrives in time)
+                    self.clock.advance(timeout.as_nanos() as u64);
+                    self.cx.fault("timeout");
+                    self.cx.probe("read_timeout_shorter_than_line_latency");
+                    let res: io::Result<usize> = Err(io::Error::new(io::ErrorKind::TimedOut, "simulated read timeout (latency)"));
+                    self.ops.push(PortOp::Read { start_ns, end_ns: self.clock.now(), bytes: vec![], result: Err(io::ErrorKind::TimedOut) });
+                    self.real.push((t0, std::time::Instant::now()));
+                    return res;
+                }
                 let n = if self.frag && max > 1 { 1 + self.cx.draw(max as u64) as usize } else { max };
                 if buf.len() > 1 {
                     self.cx.probe("reader_offered_gt_1_byte");
